@@ -35,6 +35,7 @@ type Conn struct {
 	h        *History
 	WriteErr error
 	OnWrite  func(w Write)
+	OnReadErr func() // called when a scripted read error is handed to the code under test
 	local    net.Addr
 }
 
@@ -75,6 +76,9 @@ func (c *Conn) ReadFrom(b []byte) (int, net.Addr, error) {
 	d := vs.Val(c.q, s)
 	if d.Err != nil {
 		c.h.add(Event{Kind: EvReadErr, Dg: d.Serial})
+		if c.OnReadErr != nil {
+			c.OnReadErr()
+		}
 		return 0, nil, d.Err
 	}
 	n := copy(b, d.Data)
